@@ -2,6 +2,7 @@
 #include "msc.h"
 #include <setjmp.h>
 #include <signal.h>
+#include <sys/time.h>
 #include <string.h>
 #include <sys/mman.h>
 #include <ucontext.h>
@@ -54,21 +55,33 @@ void msc_stack_fill(uint8_t pattern) {
 uint64_t msc_fault_addr(void) { return g_fault_addr; }
 uint64_t msc_fault_rip(void) { return g_fault_rip; }
 
+static int g_cpu_limit_ms = 20000;
+void msc_set_cpu_limit_ms(int ms) { g_cpu_limit_ms = ms; }
+
 int msc_run(void (*fn)(void), MState* st) {
   init();
-  struct sigaction sa, old[5];
-  static const int sigs[5] = {SIGSEGV, SIGBUS, SIGILL, SIGFPE, SIGTRAP};
+  /* SIGVTALRM: generated code that does not terminate (a miscompiled loop) ends after g_cpu_limit_ms of CPU time and is reported
+     like a fault (return value SIGVTALRM); CPU time, not wall clock, so machine load does not matter. */
+  struct sigaction sa, old[6];
+  static const int sigs[6] = {SIGSEGV, SIGBUS, SIGILL, SIGFPE, SIGTRAP, SIGVTALRM};
+  struct itimerval tv, tv_old, tv_zero;
+  memset(&tv, 0, sizeof tv); memset(&tv_zero, 0, sizeof tv_zero);
+  tv.it_value.tv_sec = g_cpu_limit_ms / 1000; tv.it_value.tv_usec = (g_cpu_limit_ms % 1000) * 1000;
   memset(&sa, 0, sizeof sa);
   sa.sa_sigaction = handler;
   sa.sa_flags = SA_SIGINFO | SA_ONSTACK | SA_NODEFER;
   sigemptyset(&sa.sa_mask);
-  for (int i = 0; i < 5; i++) sigaction(sigs[i], &sa, &old[i]);
+  for (int i = 0; i < 6; i++) sigaction(sigs[i], &sa, &old[i]);
+  getitimer(ITIMER_VIRTUAL, &tv_old);
   int sig = sigsetjmp(g_jmp, 1);
   if (sig == 0) {
     g_armed = 1;
+    if (g_cpu_limit_ms > 0) setitimer(ITIMER_VIRTUAL, &tv, 0);
     msc_call_raw(fn, st, g_top);
     g_armed = 0;
   }
-  for (int i = 0; i < 5; i++) sigaction(sigs[i], &old[i], 0);
+  setitimer(ITIMER_VIRTUAL, &tv_zero, 0);
+  for (int i = 0; i < 6; i++) sigaction(sigs[i], &old[i], 0);
+  if (tv_old.it_value.tv_sec || tv_old.it_value.tv_usec) setitimer(ITIMER_VIRTUAL, &tv_old, 0);
   return sig;
 }
